@@ -1,13 +1,14 @@
 """C17 — expiry removes only event keys, wholly, and only after the TTL."""
 from .. import core, hist
 from ..gen import PREFIX, hx, rng_for
+from . import c07
 
 TTL_MS = 1000
 EVENT_KEYS = [PREFIX + b"/events/e1", PREFIX + b"/events/e2", PREFIX + b"/events/ns/e3"]
 LOOKALIKES = [PREFIX + b"/pods/events/p1", PREFIX + b"/eventsx/q", PREFIX + b"/events", PREFIX + b"/a/events/x",
               PREFIX + b"/pods/p2"]
 # the ttl timers of the in-memory engine (KB.MemTTL): theorems about the model the `engine` suite runs
-EXTRA_PROP_MODULES = [("KB.Props.C17Mem", "KB.C17Mem"), ("KB.Props.C07Expire", "KB.C07Expire")]
+EXTRA_PROP_MODULES = [("KB.Props.C17Mem", "KB.C17Mem"), ("KB.Props.C07Expire", "KB.C07Expire"), ("KB.Props.C07Atomic", "KB.C07Atomic")]
 
 
 def is_event(k):
@@ -415,15 +416,19 @@ RENEW_LOOKALIKES = [PREFIX + b"/pods/events/p1", PREFIX + b"/eventsx/q", PREFIX 
 
 
 def index_call(lines, key):
-    """the position of the compare-and-delete of `key`'s revision record among the delete calls of the LAST compaction
-    of `lines` (run unmasked on the model), from the delete-call log; None when that compaction makes no such call"""
+    """the position of the expiry batch of `key` (since /repo 74218cc ONE call: the compare-and-delete of its revision
+    record together with the deletes of its versions, logged `expire:<ik of the revision record>+<n versions>`) among the
+    delete calls of the LAST compaction of `lines` (run unmasked on the model), from the delete-call log; None when that
+    compaction makes no such call"""
     out = core.run_model("backend", lines + ["dellog"])
     log = out[-1].split() if out else []
     if len(log) < 2 or log[0] != "dellog" or log[1] == "-":
         return None
-    want = "delcur:" + (MAGIC + key + b"\x24" + bytes(8)).hex()
+    ik = (MAGIC + key + b"\x24" + bytes(8)).hex()
     calls = log[1].split(",")
-    return calls.index(want) if want in calls else None
+    # (`delcur:`: the model follows a source tree that still makes per-record calls - regenerated fact expiryCallShape)
+    hits = [j for j, c in enumerate(calls) if c.startswith("expire:" + ik + "+") or c == "delcur:" + ik]
+    return hits[0] if hits else None
 
 
 def renewed_event_case(seed, i, variant):
@@ -432,8 +437,9 @@ def renewed_event_case(seed, i, variant):
     write the non-event key (revision b); update e (revision c > b); reads at revisions in [b, c) BEFORE; `compact R`
     with b <= R < c (timeout revision = the mark: v1 is at or below it, the revision record says c); the same reads AFTER
     must be identical. Then the Event ages: a mark at or above c older than the ttl -> it expires wholly and can be
-    created again. Variants `f` / `c`: before that, one pass in which the compare-and-delete of e's (expired) revision
-    record fails - all its versions were kept by a crashed compaction - must leave e readable (none of its versions expires)."""
+    created again. Variants `f` / `c`: before that, one pass in which the expiry batch of e (the compare-and-delete of its
+    expired revision record + the deletes of its versions: one call, aimed at through the model's delete-call log) fails -
+    all its versions were kept by a crashed compaction - must leave e whole and readable (none of its versions expires)."""
     r = rng_for(seed, "c17renewed/%d" % i)
     e = r.choice(EVENT_KEYS)
     n = r.choice(RENEW_LOOKALIKES)
@@ -475,7 +481,7 @@ def renewed_event_case(seed, i, variant):
         lines += ["compact 0 crash=0", "sleep 1300"]
         j = index_call(lines + ["compact 0"], e)
         if j is None:
-            raise RuntimeError("C17: the compaction that should expire %s makes no compare-and-delete of its revision record" % e)
+            raise RuntimeError("C17: the compaction that should expire %s makes no expiry batch for its revision record" % e)
         meta["index_call"] = j
         lines += ["compact 0 m=%d:%s" % (j, variant), "dellog", "dump", "echo index-delete-failed",
                   "get %s 0" % hx(e), "get %s 0" % hx(n), "sleep 1300"]
@@ -555,6 +561,25 @@ def renewed_oracle(case):
     return None
 
 
+def interrupted_expiry_case(seed, i, engine="tikv", offset=None, kind=None):
+    """see c07.interrupted_expiry_case (the same generator, its own random stream): expired Event + non-event keys,
+    `compact R crash=n` / `m=n:f|c` for the positions n around the expiry batch, then every key must be writable with
+    normal semantics and every Event whole or gone (signature interrupted-ttl-pass-left-unwritable-key)"""
+    return c07.interrupted_expiry_case(seed + 7919, i, engine, offset, kind)
+
+
+def interrupted_expiry_cases(seed, tier):
+    if tier == "quick":
+        return [interrupted_expiry_case(seed, 0, "tikv", 1, "crash"), interrupted_expiry_case(seed, 5, "tikv", 2, "f"),
+                interrupted_expiry_case(seed, 2, "tikv", 0, "c"), interrupted_expiry_case(seed, 3, "metrics-tikv", 1, "crash"),
+                interrupted_expiry_case(seed, 6, "metrics-tikv", 0, "iter")]
+    return [interrupted_expiry_case(seed, i, "metrics-tikv" if i % 5 == 3 else "tikv") for i in range(60)] + \
+        [interrupted_expiry_case(seed, 100 + i, ["metrics-tikv", "tikv"][i % 2], 0, "iter") for i in range(6)]
+
+
+interrupted_oracle = c07.interrupted_oracle
+
+
 def oracle(case):
     ref = hist.Ref()
     clock = 0
@@ -610,8 +635,11 @@ def oracle(case):
 
 def check(rep, tier, seed):
     n = 12 if tier == "quick" else 480
+    # a ttl pass interrupted around the expiry batch: "removes an expired key's index and versions together" (theorems
+    # KB.C07Atomic; generator and oracle shared with C07). First, so that its concrete failing input is what a violation names
+    cases = interrupted_expiry_cases(seed, tier)
     # engines without native TTL run the scanner's expiry; with native TTL the engine's own clock applies
-    cases = [gen_case(seed, i, "tikv") for i in range(n)]
+    cases += [gen_case(seed, i, "tikv") for i in range(n)]
     cases += [concurrent_compact_case(v) for v in range(3)]
     cases += [native_case(seed, i, ["badger", "memkv"][i % 2]) for i in range(4 if tier == "quick" else 96)]
     # the in-memory engine's own ttl timers, at the engine boundary (model: KB.MemTTL, theorems: KB.Props.C17Mem)
@@ -629,11 +657,13 @@ def check(rep, tier, seed):
                     break
                 c.run()
             rep.cov["renew_cases_conclusive"] = rep.cov.get("renew_cases_conclusive", 0) + (1 if renew_conclusive(c) else 0)
-    pick = lambda c: (badger_young_oracle(c) if c.meta.get("byoung") else renewed_oracle(c) if c.meta.get("renewed")
+    pick = lambda c: (interrupted_oracle(c) if c.meta.get("interrupted") else
+                      badger_young_oracle(c) if c.meta.get("byoung") else renewed_oracle(c) if c.meta.get("renewed")
                       else engine_ttl_oracle(c) if c.meta.get("engine_ttl") else concurrent_oracle(c) if c.meta.get("concurrent")
                       else renew_oracle(c) if c.meta.get("renew") else native_oracle(c) if c.meta.get("native") else oracle(c))
     if core.judge(rep, "C17", cases, pick):
         return
+    c07.interrupted_vacuity("C17", cases)
     rep.assumptions += ["events TTL 1 s through the verif setter; model time advances only by the script's sleeps (300 ms = young, 1300 ms = old); "
                         "the oracle allows 600 ms of scheduling slack",
                         "in-memory engine ttl (engine suite, KB.MemTTL / KB.Props.C17Mem): the model clock is the script's sleeps in ms; real "
